@@ -1,4 +1,5 @@
 import XmppModel.Model.StartTLS
+set_option linter.unusedVariables false
 /-!
 Helper lemmas for `Props/C02.lean`.
 
@@ -246,5 +247,487 @@ theorem loop_all {P : Sess → Prop} (h : ClosedIO P) (hn : ClosedNeg P) (cfg : 
       | ok out s2 =>
         rw [hh] at hs
         exact ih _ _ (hn.stateOr _ _ (install_all hn out.rw s2 hs))
+
+/-! ### bit facts -/
+
+theorem has_or (s m x : Mask) (h : has s x = true) : has (s ||| m) x = true := by
+  simp only [has, beq_iff_eq] at *
+  ext i hi
+  have := congrArg (fun v => v.getLsbD i) h
+  simp only [BitVec.getLsbD_and, BitVec.getElem_and, BitVec.getElem_or] at this ⊢
+  simp only [BitVec.getLsbD_eq_getElem hi] at this
+  revert this
+  cases s[i] <;> cases m[i] <;> cases x[i] <;> simp
+
+theorem has_or_self (s x : Mask) : has (s ||| x) x = true := by
+  simp only [has, beq_iff_eq]
+  ext i hi
+  simp only [BitVec.getElem_and, BitVec.getElem_or]
+  cases s[i] <;> cases x[i] <;> simp
+
+/-- a feature that needs `Secure` is not eligible while `Secure` is not set -/
+theorem not_eligible_clear (st nec proh : Mask) (hs : has st Secure = false) (hn : has nec Secure = true) :
+    eligible st nec proh = false := by
+  cases he : eligible st nec proh with
+  | false => rfl
+  | true =>
+    exfalso
+    simp only [eligible, Bool.and_eq_true, beq_iff_eq] at he
+    have h1 := he.1
+    simp only [has, beq_iff_eq] at hn
+    have : has st Secure = true := by
+      simp only [has, beq_iff_eq]
+      apply BitVec.eq_of_getLsbD_eq
+      intro i hi
+      have a := congrArg (fun v => v.getLsbD i) h1
+      have b := congrArg (fun v => v.getLsbD i) hn
+      simp only [BitVec.getLsbD_and] at a b ⊢
+      revert a b
+      generalize st.getLsbD i = x
+      generalize nec.getLsbD i = y
+      generalize Secure.getLsbD i = z
+      cases x <;> cases y <;> cases z <;> simp
+    rw [this] at hs
+    cases hs
+
+theorem secure_bit_zero : ∀ s : Mask, has s Secure = false → s &&& Secure = 0 := by decide
+
+/-! ### the secured phase: `PA` -/
+
+def okEv : Ev → Bool
+  | .wOther _ false => false
+  | _ => true
+
+/-- no feature other than STARTTLS wrote anything in clear text -/
+def NCO (tr : List Ev) : Prop := ∀ e ∈ tr, okEv e = true
+
+theorem NCO_cons (e : Ev) (tr : List Ev) : NCO (e :: tr) ↔ okEv e = true ∧ NCO tr := by
+  simp [NCO]
+
+def Sec (s : Sess) : Prop := has s.state Secure = true
+
+/-- a TLS layer is installed, `Secure` is set, nothing was written in clear but header and
+STARTTLS request -/
+def PA (s : Sess) : Prop := s.tls = true ∧ Sec s ∧ NCO s.trace
+
+theorem PA_io : ClosedIO PA where
+  hs := fun s ⟨a, b, c⟩ => ⟨a, b, c⟩
+  fromBuf := fun s o u rest ⟨a, b, c⟩ _ => ⟨a, b, (NCO_cons _ _).2 ⟨rfl, c⟩⟩
+  fromTls := fun s rest ⟨a, b, c⟩ _ => ⟨a, b, (NCO_cons _ _).2 ⟨rfl, c⟩⟩
+  fromClear := fun s b rest ⟨a, b', c⟩ _ => ⟨a, b', (NCO_cons _ _).2 ⟨rfl, c⟩⟩
+
+theorem PA_neg : ClosedNeg PA where
+  wHdr := fun s ⟨a, b, c⟩ => ⟨a, b, (NCO_cons _ _).2 ⟨rfl, c⟩⟩
+  wStartTLS := fun s ⟨a, b, c⟩ => ⟨a, b, (NCO_cons _ _).2 ⟨rfl, c⟩⟩
+  wOther := fun s id ⟨a, b, c⟩ => ⟨a, b, (NCO_cons _ _).2 ⟨by simp [a, okEv], c⟩⟩
+  oracle := fun s o ⟨a, b, c⟩ => ⟨a, b, c⟩
+  neg := fun s m id ⟨a, b, c⟩ => ⟨a, has_or _ _ _ b, c⟩
+  first := fun s ⟨a, b, c⟩ => ⟨a, b, c⟩
+  doRestart := fun s _ ⟨a, b, c⟩ => ⟨a, b, c⟩
+  restart := fun s ⟨a, b, c⟩ => ⟨a, b, c⟩
+  installTls := fun s ⟨_, b, c⟩ => ⟨rfl, b, (NCO_cons _ _).2 ⟨rfl, c⟩⟩
+  stateOr := fun s m ⟨a, b, c⟩ => ⟨a, has_or _ _ _ b, c⟩
+
+/-! ### received in clear, never delivered inside the layer: `PB` -/
+
+def okDeliver : Ev → Bool
+  | .deliver true true => false
+  | _ => true
+
+def PB (s : Sess) : Prop := (s.tls = true → s.buf = []) ∧ ∀ e ∈ s.trace, okDeliver e = true
+
+theorem PB_io : ClosedIO PB where
+  hs := fun s ⟨a, b⟩ => ⟨a, b⟩
+  fromBuf := by
+    intro s o u rest ⟨a, b⟩ hb
+    have ht : s.tls = false := by
+      cases h : s.tls with
+      | false => rfl
+      | true => rw [a h] at hb; cases hb
+    refine ⟨fun h => by simp [ht] at h, ?_⟩
+    intro e he
+    simp only [List.mem_cons] at he
+    rcases he with rfl | he
+    · rw [ht]; cases o <;> rfl
+    · exact b e he
+  fromTls := by
+    intro s rest ⟨a, b⟩ _
+    refine ⟨a, ?_⟩
+    intro e he
+    simp only [List.mem_cons] at he
+    rcases he with rfl | he
+    · rfl
+    · exact b e he
+  fromClear := by
+    intro s bf rest ⟨a, b⟩ ht
+    refine ⟨fun h => by simp [ht] at h, ?_⟩
+    intro e he
+    simp only [List.mem_cons] at he
+    rcases he with rfl | he
+    · rfl
+    · exact b e he
+
+theorem PB_cons (s : Sess) (e : Ev) (h : okDeliver e = true) (hp : PB s) :
+    PB { s with trace := e :: s.trace } := by
+  refine ⟨hp.1, ?_⟩
+  intro e' he
+  simp only [List.mem_cons] at he
+  rcases he with rfl | he
+  · exact h
+  · exact hp.2 e' he
+
+theorem PB_neg : ClosedNeg PB where
+  wHdr := fun s hp => PB_cons s _ rfl hp
+  wStartTLS := fun s hp => PB_cons s _ rfl hp
+  wOther := fun s id hp => PB_cons s _ rfl hp
+  oracle := fun s o ⟨a, b⟩ => ⟨a, b⟩
+  neg := fun s m id ⟨a, b⟩ => ⟨a, b⟩
+  first := fun s ⟨a, b⟩ => ⟨a, b⟩
+  doRestart := fun s _ ⟨a, b⟩ => ⟨a, b⟩
+  restart := fun s ⟨_, b⟩ => ⟨fun _ => rfl, b⟩
+  installTls := by
+    intro s ⟨_, b⟩
+    refine ⟨fun _ => rfl, ?_⟩
+    intro e he
+    simp only [restartDec, List.mem_cons] at he
+    rcases he with rfl | he
+    · rfl
+    · exact b e he
+  stateOr := fun s m ⟨a, b⟩ => ⟨a, b⟩
+
+/-! ### the clear phase -/
+
+/-- every configured feature other than STARTTLS requires a secured stream -/
+def Compliant (cfg : FCfg) : Prop := ∀ f ∈ cfg.others, has f.nec Secure = true
+
+/-- clear phase, at a point where no feature has been negotiated on this connection -/
+def ClearPre (s : Sess) : Prop :=
+  has s.state Secure = false ∧ s.tls = false ∧ s.negotiated = [] ∧ NCO s.trace
+
+/-- `ClearPre` and the first-features-list flag is still set -/
+def ClearFirst (s : Sess) : Prop := ClearPre s ∧ s.first = true
+
+theorem ClearPre_io : ClosedIO ClearPre where
+  hs := fun s ⟨a, b, c, d⟩ => ⟨a, b, c, d⟩
+  fromBuf := fun s o u rest ⟨a, b, c, d⟩ _ => ⟨a, b, c, (NCO_cons _ _).2 ⟨rfl, d⟩⟩
+  fromTls := fun s rest ⟨a, b, c, d⟩ _ => ⟨a, b, c, (NCO_cons _ _).2 ⟨rfl, d⟩⟩
+  fromClear := fun s bf rest ⟨a, b, c, d⟩ _ => ⟨a, b, c, (NCO_cons _ _).2 ⟨rfl, d⟩⟩
+
+theorem ClearFirst_io : ClosedIO ClearFirst where
+  hs := fun s ⟨h, f⟩ => ⟨ClearPre_io.hs s h, f⟩
+  fromBuf := fun s o u rest ⟨h, f⟩ hb => ⟨ClearPre_io.fromBuf s o u rest h hb, f⟩
+  fromTls := fun s rest ⟨h, f⟩ ht => ⟨ClearPre_io.fromTls s rest h ht, f⟩
+  fromClear := fun s bf rest ⟨h, f⟩ ht => ⟨ClearPre_io.fromClear s bf rest h ht, f⟩
+
+def Res.Both {α : Type} (Pok : α → Sess → Prop) (Pstop : Sess → Prop) : Res α → Prop
+  | .ok a s => Pok a s
+  | .stop _ s => Pstop s
+
+/-- the cache holds nothing but the real STARTTLS feature -/
+def CacheTLS (cache : List Cached) : Prop := ∀ c ∈ cache, c.id = 0 ∧ c.f = startTLS
+
+theorem lookup_cases (cfg : FCfg) (id : Nat) (f : Feature) (h : lookup cfg id = some f) :
+    (id = 0 ∧ f = startTLS) ∨ f ∈ cfg.others := by
+  unfold lookup at h
+  rw [List.find?_cons] at h
+  split at h
+  · next hm =>
+    left
+    cases h
+    simp only [startTLS, beq_iff_eq] at hm
+    exact ⟨hm.symm, rfl⟩
+  · right
+    exact List.mem_of_find?_eq_some h
+
+theorem cacheInsert_tls (cache : List Cached) (c : Cached) (hc : CacheTLS cache)
+    (h : c.id = 0 ∧ c.f = startTLS) : CacheTLS (cacheInsert cache c) := by
+  intro x hx
+  simp only [cacheInsert, List.mem_append, List.mem_filter, List.mem_singleton] at hx
+  rcases hx with ⟨hx, _⟩ | rfl
+  · exact hc x hx
+  · exact h
+
+theorem parseItems_clear (cfg : FCfg) (hc : Compliant cfg) (st : Mask) (hst : has st Secure = false) :
+    ∀ items req cache r, CacheTLS cache → parseItems cfg st items req cache = .ok r → CacheTLS r.2 := by
+  intro items
+  induction items with
+  | nil =>
+    intro req cache r hct h
+    simp only [parseItems] at h
+    cases h
+    exact hct
+  | cons it rest ih =>
+    intro req cache r hct h
+    unfold parseItems at h
+    cases hl : lookup cfg it.id with
+    | none => rw [hl] at h; exact ih _ _ _ hct h
+    | some f =>
+      rw [hl] at h
+      dsimp only at h
+      split at h
+      · cases h
+      · split at h
+        · next hel =>
+          rcases lookup_cases cfg it.id f hl with hz | hmem
+          · exact ih _ _ _ (cacheInsert_tls cache _ hct hz) h
+          · rw [not_eligible_clear st f.nec f.proh hst (hc f hmem)] at hel
+            cases hel
+        · exact ih _ _ _ hct h
+
+theorem allowed_ne (l : List Cached) (h : l ≠ []) : allowed l ≠ [] := by
+  unfold allowed
+  split
+  · exact h
+  · next hne => intro he; rw [he] at hne; exact hne rfl
+
+theorem allowed_sub (l : List Cached) (c : Cached) (h : c ∈ allowed l) : c ∈ l := by
+  unfold allowed at h
+  split at h
+  · exact h
+  · exact (List.mem_filter.1 h).1
+
+theorem pickSet_clear (cfg : FCfg) (doTLS : Bool) (cache : List Cached) (s : Sess) (hpre : ClearPre s)
+    (hct : CacheTLS cache) (hne : doTLS = true ∨ cache ≠ []) :
+    pickSet cfg doTLS cache s ≠ [] ∧ ∀ c ∈ pickSet cfg doTLS cache s, c.id = 0 := by
+  cases doTLS with
+  | true => simp [pickSet]
+  | false =>
+    have hcne : cache ≠ [] := by rcases hne with h | h; cases h; exact h
+    obtain ⟨hs, _, hn, _⟩ := hpre
+    have hcand : candidates cfg cache s = cache := by
+      unfold candidates
+      rw [List.filter_eq_self]
+      intro c hc
+      obtain ⟨_, hf⟩ := hct c hc
+      have hz := secure_bit_zero s.state hs
+      simp [hn, hf, startTLS, eligible, hz]
+    simp only [pickSet, Bool.false_eq_true, if_false, hcand]
+    exact ⟨allowed_ne cache hcne, fun c hc => (hct c (allowed_sub cache c hc)).1⟩
+
+theorem negotiateOne_clear (c : Cached) (res : NegRes) (s : Sess) (hid : c.id = 0) (hpre : ClearPre s) :
+    (negotiateOne c res s).Both (fun mr s' => mr = (Secure, Rw.tls) ∧ ClearPre s') ClearPre := by
+  unfold negotiateOne
+  rw [if_pos (by simp [hid])]
+  have hw := write_all ClearPre_io .wStartTLS
+    (fun s ⟨a, b, c, d⟩ => ⟨a, b, c, (NCO_cons _ _).2 ⟨rfl, d⟩⟩) s hpre
+  cases hh : write .wStartTLS s with
+  | stop w s' => rw [hh] at hw; exact hw
+  | ok a s1 =>
+    rw [hh] at hw
+    dsimp only
+    have hpl := pull_all ClearPre_io s1 hw
+    cases hh2 : pull s1 with
+    | stop w s' => rw [hh2] at hpl; exact hpl
+    | ok u s2 =>
+      rw [hh2] at hpl
+      cases u <;> first | exact ⟨rfl, hpl⟩ | exact hpl
+
+theorem select_clear (cfg : FCfg) (doTLS listReq : Bool) (cache : List Cached) (orc : List (Nat × NegRes))
+    (s : Sess) (hpre : ClearPre s) (hct : CacheTLS cache) (hne : doTLS = true ∨ cache ≠ []) :
+    (select cfg doTLS listReq cache orc s).Both
+      (fun out s' => out.rw = .tls ∧ Sec s' ∧ NCO s'.trace) (fun s' => NCO s'.trace) := by
+  obtain ⟨hal, hids⟩ := pickSet_clear cfg doTLS cache s hpre hct hne
+  unfold select
+  generalize pickSet cfg doTLS cache s = al at hal hids
+  rw [if_neg (by simpa [List.isEmpty_iff] using hal)]
+  cases orc with
+  | nil => exact hpre.2.2.2
+  | cons e orc' =>
+    obtain ⟨id, res⟩ := e
+    dsimp only
+    cases hf : al.find? (fun c => c.id == id) with
+    | none => exact hpre.2.2.2
+    | some c =>
+      dsimp only
+      have hid := hids c (List.mem_of_find?_eq_some hf)
+      have hno := negotiateOne_clear c res { s with oracle := orc' } hid hpre
+      cases hh : negotiateOne c res { s with oracle := orc' } with
+      | stop w s' => rw [hh] at hno; exact hno.2.2.2
+      | ok mr s1 =>
+        rw [hh] at hno
+        obtain ⟨hmr, hs1⟩ := hno
+        subst hmr
+        dsimp only
+        rw [if_pos (by simp)]
+        exact ⟨rfl, has_or_self _ _, hs1.2.2.2⟩
+
+theorem parseItems_nil (cfg : FCfg) (st : Mask) (req : Bool) (cache : List Cached) :
+    parseItems cfg st [] req cache = .ok (req, cache) := by
+  simp [parseItems]
+
+theorem negotiateFeatures_clear (cfg : FCfg) (hc : Compliant cfg) (s : Sess) (hpre : ClearPre s) :
+    (negotiateFeatures cfg true s).Both
+      (fun out s' => out.rw = .tls ∧ Sec s' ∧ NCO s'.trace) (fun s' => NCO s'.trace) := by
+  unfold negotiateFeatures
+  have hpl := pull_all ClearPre_io s hpre
+  cases hh : pull s with
+  | stop w s' => rw [hh] at hpl; exact hpl.2.2.2
+  | ok u s1 =>
+    rw [hh] at hpl
+    cases u with
+    | list items =>
+      dsimp only
+      cases hp : parseItems cfg s1.state items false [] with
+      | error e => exact hpl.2.2.2
+      | ok r =>
+        obtain ⟨req, cache⟩ := r
+        dsimp only
+        have hct : CacheTLS cache :=
+          parseItems_clear cfg hc s1.state hpl.1 items false [] (req, cache) (by intro c hc; cases hc) hp
+        cases hadv : cache.any (fun c => c.id == 0) with
+        | true =>
+          have hcne : cache ≠ [] := by intro h; rw [h] at hadv; cases hadv
+          have hine : items.isEmpty = false := by
+            cases items with
+            | nil => rw [parseItems_nil] at hp; cases hp; exact absurd rfl hcne
+            | cons _ _ => rfl
+          have hce : cache.isEmpty = false := by
+            cases cache with
+            | nil => exact absurd rfl hcne
+            | cons _ _ => rfl
+          simp only [Bool.not_true, Bool.and_false, Bool.false_and, Bool.not_false, Bool.true_and, hine, hce,
+            Bool.false_eq_true, if_false]
+          exact select_clear cfg false req cache s1.oracle s1 hpl hct (Or.inr hcne)
+        | false =>
+          simp only [Bool.not_false, Bool.and_true, Bool.true_and, hpl.1, Bool.not_true, Bool.false_and,
+            Bool.false_eq_true, if_false]
+          exact select_clear cfg true req cache s1.oracle s1 hpl hct (Or.inl rfl)
+    | _ => exact hpl.2.2.2
+
+theorem step_clear (cfg : FCfg) (hc : Compliant cfg) (fuel : Nat) (s : Sess) (hpre : ClearFirst s) :
+    (step cfg fuel s).Both
+      (fun out s' => out.rw = .tls ∧ Sec s' ∧ NCO s'.trace) (fun s' => NCO s'.trace) := by
+  unfold step
+  have hr : (if s.doRestart then
+      match write .wHdr s with
+      | .stop w s' => Res.stop w s'
+      | .ok _ s1 => expectHdr fuel s1
+    else Res.ok () s : Res PUnit).All ClearFirst := by
+    split
+    · have hw := write_all ClearFirst_io .wHdr
+        (fun s ⟨⟨a, b, c, d⟩, f⟩ => ⟨⟨a, b, c, (NCO_cons _ _).2 ⟨rfl, d⟩⟩, f⟩) s hpre
+      cases hh : write .wHdr s with
+      | stop w s' => rw [hh] at hw; exact hw
+      | ok a s1 => rw [hh] at hw; exact expectHdr_all ClearFirst_io fuel s1 hw
+    · exact hpre
+  simp only
+  generalize (if s.doRestart then
+      match write .wHdr s with
+      | .stop w s' => Res.stop w s'
+      | .ok _ s1 => expectHdr fuel s1
+    else Res.ok () s : Res PUnit) = r at hr
+  cases r with
+  | stop w s' => exact hr.1.2.2.2
+  | ok a s2 =>
+    dsimp only
+    obtain ⟨⟨h1, h2, h3, h4⟩, hf⟩ := hr
+    rw [hf]
+    have hnf := negotiateFeatures_clear cfg hc { s2 with first := false } ⟨h1, h2, h3, h4⟩
+    cases hh : negotiateFeatures cfg true { s2 with first := false } with
+    | stop w s' => rw [hh] at hnf; exact hnf
+    | ok out s3 => rw [hh] at hnf; exact hnf
+
+/-! ### the whole loop -/
+
+/-- what C02 demands of an outcome: a session only with `Secure` set and a TLS layer installed -/
+def GoodOutcome : Outcome → Prop
+  | .done st t => has st Secure = true ∧ t = true
+  | .stop _ => True
+
+theorem loop_PA (cfg : Cfg) : ∀ fuel teeOn s, PA s →
+    PA (loop cfg fuel teeOn s).1 ∧ GoodOutcome (loop cfg fuel teeOn s).2 := by
+  intro fuel
+  induction fuel with
+  | zero => intro teeOn s hp; exact ⟨hp, trivial⟩
+  | succ fuel ih =>
+    intro teeOn s hp
+    unfold loop
+    split
+    · exact ⟨hp, hp.2.1, hp.1⟩
+    · simp only
+      have hp1 : PA (if (cfg.tee && !teeOn) = true then restartDec s else s) := by
+        split
+        · exact PA_neg.restart s hp
+        · exact hp
+      have hs := step_all PA_io PA_neg cfg.toFCfg (fuel + 1) _ hp1
+      cases hh : step cfg.toFCfg (fuel + 1) (if (cfg.tee && !teeOn) = true then restartDec s else s) with
+      | stop w s2 => rw [hh] at hs; exact ⟨hs, trivial⟩
+      | ok out s2 =>
+        rw [hh] at hs
+        exact ih _ _ (PA_neg.stateOr _ _ (install_all PA_neg out.rw s2 hs))
+
+/-- loop-head invariant: secured, or still in clear text with no features list read yet -/
+def Head (s : Sess) : Prop := PA s ∨ (ClearFirst s ∧ has s.state Ready = false)
+
+theorem loop_safe (cfg : Cfg) (hc : Compliant cfg.toFCfg) : ∀ fuel teeOn s, Head s →
+    NCO (loop cfg fuel teeOn s).1.trace ∧ GoodOutcome (loop cfg fuel teeOn s).2 := by
+  intro fuel teeOn s hh
+  rcases hh with hpa | ⟨hcl, hnr⟩
+  · have := loop_PA cfg fuel teeOn s hpa
+    exact ⟨this.1.2.2, this.2⟩
+  · cases fuel with
+    | zero => exact ⟨hcl.1.2.2.2, trivial⟩
+    | succ fuel =>
+      unfold loop
+      rw [if_neg (by simp [hnr])]
+      simp only
+      have hp1 : ClearFirst (if (cfg.tee && !teeOn) = true then restartDec s else s) := by
+        split
+        · obtain ⟨⟨a, b, c, d⟩, f⟩ := hcl
+          exact ⟨⟨a, b, rfl, d⟩, f⟩
+        · exact hcl
+      have hs := step_clear cfg.toFCfg hc (fuel + 1) _ hp1
+      cases hst : step cfg.toFCfg (fuel + 1) (if (cfg.tee && !teeOn) = true then restartDec s else s) with
+      | stop w s2 => rw [hst] at hs; exact ⟨hs, trivial⟩
+      | ok out s2 =>
+        rw [hst] at hs
+        obtain ⟨hrw, hsec, hnco⟩ := hs
+        have hpa : PA { install out.rw s2 with state := (install out.rw s2).state ||| out.mask } := by
+          rw [hrw]
+          exact ⟨rfl, has_or _ _ _ hsec, (NCO_cons _ _).2 ⟨rfl, hnco⟩⟩
+        have := loop_PA cfg fuel (if out.rw == .tls then false else (teeOn || cfg.tee)) _ hpa
+        exact ⟨this.1.2.2, this.2⟩
+
+/-! ### the tee changes nothing -/
+
+theorem restartDec_id (s : Sess) (hb : s.buf = []) (hn : s.negotiated = []) : restartDec s = s := by
+  cases s
+  simp only [restartDec] at *
+  subst hb hn
+  rfl
+
+theorem loop_tee (cfg : Cfg) : ∀ fuel teeOn s, (teeOn = true ∨ (s.buf = [] ∧ s.negotiated = [])) →
+    loop { cfg with tee := true } fuel teeOn s = loop { cfg with tee := false } fuel false s := by
+  intro fuel
+  induction fuel with
+  | zero => intro teeOn s _; rfl
+  | succ fuel ih =>
+    intro teeOn s h
+    unfold loop
+    split
+    · rfl
+    · have hs1 : (if (true && !teeOn) = true then restartDec s else s) = s := by
+        rcases h with h | ⟨hb, hn⟩
+        · simp [h]
+        · split
+          · exact restartDec_id s hb hn
+          · rfl
+      simp only [Bool.false_and, Bool.false_eq_true, if_false, hs1, Bool.or_true, Bool.or_false]
+      cases hst : step cfg.toFCfg (fuel + 1) s with
+      | stop w s2 => rfl
+      | ok out s2 =>
+        simp only
+        cases hrw : out.rw with
+        | tls =>
+          simp only [beq_self_eq_true, if_true]
+          exact ih false _ (Or.inr ⟨rfl, rfl⟩)
+        | none =>
+          have : (Rw.none == Rw.tls) = false := by decide
+          simp only [this, Bool.false_eq_true, if_false]
+          exact ih true _ (Or.inl rfl)
+        | same =>
+          have : (Rw.same == Rw.tls) = false := by decide
+          simp only [this, Bool.false_eq_true, if_false]
+          exact ih true _ (Or.inl rfl)
 
 end XmppModel.StartTLS
